@@ -56,4 +56,12 @@ theorem real_distance_tri (a b c : Pos ℝ) :
   simp only [sub_add_sub_cancel] at this
   simpa [distance, length, psub, fieldArith, realTransc] using this
 
+theorem real_pi_pos : 0 < realTransc.pi := Real.pi_pos
+
+theorem real_atan2_range : ∀ y x : ℝ,
+    -realTransc.pi ≤ realTransc.atan2 y x ∧ realTransc.atan2 y x ≤ realTransc.pi := by
+  intro y x
+  have := Real.pi_pos
+  constructor <;> simp only [realTransc] <;> linarith
+
 end Rosu.Curve
